@@ -45,6 +45,9 @@ func c17SP() *saml2.SAMLServiceProvider {
 	sp := world.SP()
 	sp.IDPCertificateStore = world.Store("K1", "K3")
 	sp.SignAuthnRequests = true
+	// no SP issuer: the builders fall back to the IdP issuer (the path with logic in it); a
+	// builder that "remembers" the fallback in the configuration shows in the snapshot
+	sp.ServiceProviderIssuer = ""
 	// a P-256 signer through the setter (fast), a non-default algorithm and canonicaliser so
 	// that a half-initialised signing context (sha256 / c14n11 defaults) is observable
 	sp.SetSPSigningKeyStore(world.SetterKeyStore("KE"))
